@@ -518,5 +518,183 @@ Proof.
     + right; right. exact I.
 Qed.
 
+(* ---------------- repetitions *)
+Definition sep_relW (sp1 sp2 : option nat) : Prop :=
+  match sp1, sp2 with
+  | None, None => True
+  | Some x, Some y => pin_any R x y = true
+  | _, _ => False
+  end.
+
+Lemma rep_simW e1 e2 sp1 sp2 plus fa fb : fa + fb <= n -> pin_any R e1 e2 = true -> sep_relW sp1 sp2 ->
+  forall k1 k2 first a1 a2 s s', eqn s s' -> skipws s = true ->
+  srelW s a1 a2 (first = true /\ plus = true /\ exists d, atrue g1 ne d e1 = true)
+        (rep_loop (P1 fa) e1 sp1 plus k1 first a1 s) (rep_loop (P2 fb) e2 sp2 plus k2 first a2 s').
+Proof.
+  intros L He Hs. induction k1 as [|k1 IHk]; intros k2 first a1 a2 s s' Es Ks; [left; reflexivity|].
+  destruct k2 as [|k2]; [right; left; reflexivity|].
+  assert (EL : forall cp b1 b2 z z', eqn z z' -> skipws z = true ->
+    srelW z b1 b2 (first = true /\ plus = true /\ exists d, atrue g1 ne d e1 = true)
+          (elemf (P1 fa) e1 sp1 plus k1 first cp b1 z) (elemf (P2 fb) e2 sp2 plus k2 first cp b2 z')).
+  { intros cp b1 b2 z z' Ez Kz. unfold elemf.
+    pose proof (kid_anyW fa fb e1 e2 L He false false z z' Ez Kz) as O.
+    destruct O as [O|[O|O]]; [rewrite O; left; reflexivity | rewrite O; right; left; reflexivity |].
+    destruct (P1 fa e1 false z) as [r1 s2|s2|w1], (P2 fb e2 false z') as [r2 s2'|s2'|w2]; try contradiction.
+    - destruct O as (E & CT & V & _ & _ & AT). pose proof V as (G1 & G2 & T & _). rewrite <- T.
+      destruct (truthy r1) eqn:T1.
+      + eapply srelW_shift with (e1 := [r1]) (e2 := [r2]); [| | exact CT | apply IHk; [exact E | apply (skipws_ctx _ _ CT Kz)]].
+        * pose proof (accrel_push r1 r2 false V) as AP. rewrite <- T, T1 in AP. exact AP.
+        * intros _. left. discriminate.
+      + eapply srelW_shift with (e1 := []) (e2 := []) (Q' := False); [apply accrel_nil | | exact CT |].
+        * intros (_ & _ & d & q). specialize (AT d q). congruence.
+        * rewrite !app_nil_r. apply srelW_done; [exact E | tauto].
+    - destruct O as (E & CT & _). destruct (plus && first)%bool eqn:PF.
+      + right; right. split; [apply eqxn_set_pos_l; apply eqxn_set_pos_r; exact E|].
+        eapply ctx3_trans; [apply ctx3_set_pos | exact CT].
+      + eapply srelW_shift with (e1 := []) (e2 := []) (Q' := False);
+          [apply accrel_nil | | eapply ctx3_trans; [apply (ctx3_set_pos cp) | exact CT] |].
+        * intros (F1 & F2 & _). subst. discriminate.
+        * rewrite !app_nil_r. apply srelW_done; [apply eqxn_set_pos; exact E | tauto].
+    - right; right. exact I. }
+  rewrite !rep_loop_S. rewrite <- (eqn_pos _ _ Es). destruct sp1 as [x|], sp2 as [y|]; try contradiction.
+  - destruct first; [apply EL; assumption|].
+    pose proof (kid_anyW fa fb x y L Hs false false s s' Es Ks) as O.
+    destruct O as [O|[O|O]]; [rewrite O; left; reflexivity | rewrite O; right; left; reflexivity |].
+    destruct (P1 fa x false s) as [r1 s1|s1|w1], (P2 fb y false s') as [r2 s2|s2|w2]; try contradiction.
+    + destruct O as (E & CT & V & _). rewrite !push_app.
+      eapply srelW_shift; [eapply accrel_push; exact V | | exact CT | apply EL; [exact E | apply (skipws_ctx _ _ CT Ks)]].
+      intros (F1 & _). discriminate.
+    + destruct O as (E & CT & _). cbn [andb]. rewrite andb_false_r.
+      eapply srelW_shift with (e1 := []) (e2 := []) (Q' := False);
+        [apply accrel_nil | | eapply ctx3_trans; [apply (ctx3_set_pos (pos s)) | exact CT] |].
+      * intros (F1 & _). discriminate.
+      * rewrite !app_nil_r. apply srelW_done; [apply eqxn_set_pos; exact E | tauto].
+    + right; right. exact I.
+  - apply EL; assumption.
+Qed.
+
+(* ---------------- comments and terminals *)
+Definition mrelW (s : st) (o1 o2 : out) : Prop :=
+  o1 = Abort 0 \/ o2 = Abort 0 \/
+  match o1, o2 with
+  | Ok _ s1, Ok _ s2 => eqn s1 s2 /\ ctx3 s1 s
+  | Abort _, Abort _ => True
+  | _, _ => False
+  end.
+
+Lemma mrelW_ctx s0 s o1 o2 : ctx3 s0 s -> mrelW s0 o1 o2 -> mrelW s o1 o2.
+Proof.
+  intros CT [H|[H|H]]; [left; exact H | right; left; exact H | right; right].
+  destruct o1, o2; try exact H. destruct H as (A & B). split; [exact A | eapply ctx3_trans; eassumption].
+Qed.
+
+Lemma cmt_simW cm1 cm2 fa fb : fa + fb <= n -> pin_any R cm1 cm2 = true ->
+  nonterminal g1 cm1 = true -> nonterminal g2 cm2 = true ->
+  forall k1 k2 s s', eqn s s' -> skipws s = true ->
+  mrelW s (cmt_loop input (P1 fa) cm1 k1 s) (cmt_loop input (P2 fb) cm2 k2 s').
+Proof.
+  intros L H N1 N2. induction k1 as [|k1 IHk]; intros k2 s s' Es Ks; [left; reflexivity|].
+  destruct k2 as [|k2]; [right; left; reflexivity|]. cbn [cmt_loop].
+  pose proof (kid_anyW fa fb cm1 cm2 L H false false s s' Es Ks) as O.
+  destruct O as [O|[O|O]]; [rewrite O; left; reflexivity | rewrite O; right; left; reflexivity |].
+  destruct (P1 fa cm1 false s) as [r1 s1|s1|w1], (P2 fb cm2 false s') as [r2 s2|s2|w2]; try contradiction.
+  - destruct O as (E & CT & _).
+    eapply mrelW_ctx; [eapply ctx3_trans; [apply ctx3_maybe_skip_ws | exact CT]|].
+    apply IHk; [apply eqn_maybe_skip_ws; exact E|].
+    apply (skipws_ctx (maybe_skip_ws input s1) s); [eapply ctx3_trans; [apply ctx3_maybe_skip_ws | exact CT] | exact Ks].
+  - destruct O as (E & CT & Q1 & Q2). right; right. split; [|exact CT].
+    apply eqxn_pos_eqn; [exact E|]. rewrite (Q1 N1), (Q2 N2). apply eqn_pos; exact Es.
+  - right; right. exact I.
+Qed.
+
+Lemma eqn_upd_cpos k a b : eqn a b ->
+  eqn (set_cpos (upd k (pos a) (cpos a)) a) (set_cpos (upd k (pos b) (cpos b)) b).
+Proof. intro H. rewrite (eqn_pos _ _ H), (eqn_cpos _ _ H). apply eqn_set_cpos. exact H. Qed.
+
+Lemma match_pre_simW fa fb k1 k2 s s' : fa + fb <= n -> eqn s s' -> skipws s = true ->
+  mrelW s (match_pre g1 input (P1 fa) k1 s) (match_pre g2 input (P2 fb) k2 s').
+Proof.
+  intros L Es Ks. unfold match_pre.
+  pose proof (eqn_maybe_skip_ws input s s' Es) as E1.
+  pose proof (ctx3_maybe_skip_ws input s) as C1.
+  destruct (eqn_ctx _ _ E1) as (W1 & K1 & I1).
+  rewrite <- K1, <- (eqn_pos _ _ E1), <- (eqn_cpos _ _ E1), <- I1.
+  set (z := maybe_skip_ws input s) in *. set (z' := maybe_skip_ws input s') in *.
+  destruct (if skipws z then lookup (pos z) (cpos z) else None).
+  { right; right. split; [apply eqn_set_pos; exact E1 | eapply ctx3_trans; [apply ctx3_set_pos | exact C1]]. }
+  destruct (in_cmt z) eqn:IC; [right; right; split; assumption|].
+  assert (Kz : skipws z = true) by (apply (skipws_ctx _ _ C1 Ks)).
+  unfold parse_comments. pose proof HF as HF'. unfold frame_ok in HF'. apply andb_true_iff in HF' as [_ HC].
+  destruct (g_comments g1) as [c1|], (g_comments g2) as [c2|]; try discriminate.
+  - apply andb_true_iff in HC as [HC N2]. apply andb_true_iff in HC as [HC N1].
+    pose proof (cmt_simW c1 c2 fa fb L HC N1 N2 k1 k2 (set_in_cmt true z) (set_in_cmt true z')
+                         (eqn_set_in_cmt true _ _ E1) Kz) as M.
+    destruct M as [M|[M|M]]; [rewrite M; left; reflexivity | rewrite M; right; left; reflexivity |].
+    destruct (cmt_loop input (P1 fa) c1 k1 _) as [r1 t1|t1|w1], (cmt_loop input (P2 fb) c2 k2 _) as [r2 t2|t2|w2];
+      try contradiction.
+    + destruct M as (E & CT). right; right. split.
+      * apply (eqn_upd_cpos (pos z) (set_in_cmt false t1) (set_in_cmt false t2)). apply eqn_set_in_cmt. exact E.
+      * destruct CT as (A & B & _). destruct C1 as (A1 & B1 & D1). repeat split; simpl.
+        -- rewrite A. exact A1. -- rewrite B. exact B1. -- rewrite <- D1. symmetry. exact IC.
+    + right; right. exact I.
+  - right; right. split.
+    + apply (eqn_upd_cpos (pos z) (set_in_cmt false (set_in_cmt true z)) (set_in_cmt false (set_in_cmt true z'))).
+      apply eqn_set_in_cmt. apply eqn_set_in_cmt. exact E1.
+    + destruct C1 as (A1 & B1 & D1). repeat split; simpl; try assumption. rewrite <- D1. symmetry. exact IC.
+Qed.
+
+(* Match.parse's skipping, run again from the state a failed first alternative leaves behind, hits the
+   comment-position cache (skipws on) and ends where the first run ended *)
+Lemma lookup_upd k v m : lookup k (upd k v m) = Some v.
+Proof.
+  induction m as [|[k' v'] m IHm]; simpl; [rewrite Nat.eqb_refl; reflexivity|].
+  destruct (Nat.eqb k k') eqn:E; simpl; [rewrite Nat.eqb_refl; reflexivity | rewrite E; exact IHm].
+Qed.
+
+Lemma eqn_back p a b sA p' : pos sA = p' -> eqn (set_pos p' (set_pos a (set_pos b (reg_fail p sA)))) sA.
+Proof.
+  intro H. destruct sA. simpl in H. subst. unfold eqn, reg_fail, set_pos, set_nm. simpl.
+  destruct nm; simpl; [|reflexivity]. destruct in_cmt; [reflexivity|]. destruct (Nat.ltb n0 p); reflexivity.
+Qed.
+
+Lemma reg_fail_fields p s : ws (reg_fail p s) = ws s /\ skipws (reg_fail p s) = skipws s /\
+  in_cmt (reg_fail p s) = in_cmt s /\ cpos (reg_fail p s) = cpos s /\ pos (reg_fail p s) = pos s.
+Proof.
+  pose proof (reg_fail_eqn p s) as E. destruct (eqn_ctx _ _ E) as (A & B & C).
+  repeat split; try assumption; [apply eqn_cpos | apply eqn_pos]; exact E.
+Qed.
+
+Lemma match_pre_again g rec k z r sA p :
+  skipws z = true -> ctx3 sA z -> match_pre g input rec k z = Ok r sA ->
+  exists sC, match_pre g input rec k (set_pos (pos z) (reg_fail p sA)) = Ok RNone sC /\ eqn sC sA.
+Proof.
+  intros Kz (CW & CK & CI) H.
+  destruct (reg_fail_fields p sA) as (RW & RK & RI & RC & RP).
+  remember (set_pos (pos z) (reg_fail p sA)) as zB eqn:EzB.
+  assert (ZK : skipws zB = true) by (subst zB; cbn [skipws set_pos]; congruence).
+  assert (ZW : ws zB = ws z) by (subst zB; cbn [ws set_pos]; congruence).
+  assert (ZP : pos zB = pos z) by (subst zB; reflexivity).
+  assert (ZC : cpos zB = cpos sA) by (subst zB; cbn [cpos set_pos]; congruence).
+  assert (ZI : in_cmt zB = in_cmt z) by (subst zB; cbn [in_cmt set_pos]; congruence).
+  set (q := skip_ws_from (ws z) (skipn (pos z) input) (pos z)).
+  assert (M1 : maybe_skip_ws input z = set_pos q z).
+  { unfold maybe_skip_ws, do_skip_ws. rewrite Kz. reflexivity. }
+  assert (M2 : maybe_skip_ws input zB = set_pos q zB).
+  { unfold maybe_skip_ws, do_skip_ws. rewrite ZK, ZW, ZP. reflexivity. }
+  unfold match_pre in *. rewrite M1 in H. rewrite M2. clear M1 M2.
+  cbn [skipws pos cpos in_cmt set_pos] in *. rewrite Kz in H. rewrite ZK, ZC, ZI.
+  destruct (lookup q (cpos z)) as [p'|] eqn:LK.
+  - inversion H; subst sA. cbn [cpos set_pos]. rewrite LK.
+    eexists. split; [reflexivity|]. rewrite EzB. apply eqn_back. reflexivity.
+  - destruct (in_cmt z) eqn:IC.
+    + inversion H; subst sA. cbn [cpos set_pos]. rewrite LK.
+      eexists. split; [reflexivity|]. rewrite EzB.
+      apply (eqn_trans _ (set_pos q (set_pos q (set_pos (pos z) (reg_fail p (set_pos q z)))))); [reflexivity|].
+      apply eqn_back. reflexivity.
+    + destruct (parse_comments g input rec k (set_pos q z)) as [r2 s2|s2|w] eqn:PC; try discriminate.
+      inversion H; subst sA. cbn [cpos set_cpos]. rewrite lookup_upd.
+      eexists. split; [reflexivity|]. rewrite EzB. apply eqn_back. reflexivity.
+Qed.
+
 End StepW.
 End SoundW.
